@@ -135,6 +135,18 @@ CHECKS = {
         technique="TLA+ walk machine with traversal controls; TLC-generated restricted walks replayed + metamorphic re-check on real walks",
         engine="tlc+vh",
     ),
+    "C16": dict(
+        category="model_checking",
+        text="Transform.tla states the focused and the selector-driven transform as functional updates of the expanded "
+             "tree of a graph (Upd, WT), with the failure cases; TLC checks identity-is-identity, replace-lands-at-target "
+             "and remove-removes on every case of the bounded instance and emits the expected result trees; the harness runs "
+             "FocusedTransform / WalkTransforming on real linked blocks and compares the result loaded from the new root, "
+             "the untouched input and storage, link preservation and the callback's argument.",
+        design_ref="DESIGN.md section 4, C16",
+        note="Bounded graphs/paths; one known finding (WalkTransforming inlines links); trusted: TLC, harness.",
+        technique="TLA+ functional-update semantics evaluated by TLC; every case replayed against the real transforms",
+        engine="tlc+vh",
+    ),
     "C17": dict(
         category="model_checking",
         text="Storage.tla is the key-value contract of the storage interfaces under content-addressed use (one action per "
